@@ -17,6 +17,8 @@ B_THOROUGH = B_QUICK + ['x64-soft', 'x64-alt1', 'x64-alt2', 'x64-aesni-all', 'a6
                         'x86-soft-all', 'x86-alt1-all']
 
 REGISTRY = {
+    'C02': dict(module='c02', level='other', technique='truth-table lemma: the bitsliced S-box circuits are the FIPS-197 S-box (generated from its definition); bit-level (GF(2)-affine) normal form of the block routine on a symbolic key and block compared with the FIPS-197 KeyExpansion / Cipher / InvCipher pseudo-code over the same symbols',
+                quick=['x64', 'x64-soft', 'x64-alt1'], thorough=['x64', 'x64-soft', 'x64-alt1', 'x86-soft-all', 'x86-alt1-all', 'a64-soft-all', 'a64']),
     'C17': dict(module='c17', level='other', technique='dispatch-shape rule over resolved MIR; per-lane term equality / key-lane dependence by global value numbering; mix-column inverse and round-consistency identities for the bitsliced implementation in bit-level canonical form',
                 quick=['x64-all', 'x64-soft-all', 'x64-soft-aesni-all', 'x64-alt1-all'], thorough=['x64-all', 'x64-soft-all', 'x64-soft-aesni-all', 'x64-aesni-all', 'x64-alt1-all', 'a64-all', 'a64-soft-all', 'x86-all', 'x86-alt1-all']),
     'C04': dict(module='c04', level='other', technique='override-discipline and InOut dataflow rules; per-lane term equality (global value numbering, bit-level canonical form for fixslice) of parallel and single-block routines',
